@@ -77,9 +77,6 @@ structure Safe (cfg : Cfg) (nd : Node) (b : Block) : Prop where
   (`newstate_system_contract_height_counterexample`) -/
   noSysEmptied : cfg.legacy = false → ∀ a, isSys a = true → (Map.get nd.st.contracts a).isSome = true →
     storageEmpty (writeStorage nd.st.storage b.diff.storage) a = false
-  /-- legacy backend as found: no class hash is listed twice among the declared classes
-  (`legacy_duplicate_declaration_counterexample`) -/
-  noDupDeclared : cfg.dupTolerant = false → (b.diff.declV0 ++ Map.keys b.diff.declV1).Nodup
   /-- before 702b167: the block does not close a filter window (`reopened_window_kept_before_702b167`) -/
   window : cfg.dropReopenedWindow = true ∨ b.number ≠ nd.running.fromBlock + cfg.window - 1
 
@@ -92,7 +89,7 @@ theorem store_inv {cfg : Cfg} (hc : cfg.asFound) {nd nd' : Node} {b : Block}
   have f'' := filterInsert_inv finv hfi
   cases hleg : cfg.legacy with
   | true =>
-    obtain ⟨_, hpu⟩ := hc.2 hleg
+    obtain ⟨_, hpu, _⟩ := hc.2 hleg
     have s' := legacy_update_inv hleg hpu sinv ok.dDep ok.dRep ok.dNon ok.dSto ok.dDecl ok.dMig ok.dDefs ok.migVer
       ok.decl1 ok.casmFresh hsc hus
     refine ⟨hidx, ?_, ?_, fun h => by rw [hleg] at h; cases h⟩
@@ -121,7 +118,7 @@ theorem stepOK_of_inv {cfg : Cfg} (hc : cfg.asFound) {nd nd' : Node} {b : Block}
   obtain ⟨_, gCa, hmig⟩ := storeCasm_info b.number sinv.sCasm ok.dDecl ok.dMig ok.migVer hsc''
   have cls : ClassesOK cfg nd.st casm'' b :=
     { sCl := sinv.sCl, sTr := sinv.sTr, classAt := sinv.classAt, trieSub := sinv.trieSub,
-      dDecl := ok.dDecl, dMig := ok.dMig, dDefs := ok.dDefs, nodup := safe.noDupDeclared, known0 := ok.known0, decl1 := ok.decl1,
+      dDecl := ok.dDecl, dMig := ok.dMig, dDefs := ok.dDefs, nodup := fun h => absurd hc.dupTolerant (by simp [h]), known0 := ok.known0, decl1 := ok.decl1,
       defsListed := ok.defsListed,
       migOK := fun c y hcy => by
         obtain ⟨md, hmd, hm0, _, hpos⟩ := hmig c y hcy
@@ -134,7 +131,7 @@ theorem stepOK_of_inv {cfg : Cfg} (hc : cfg.asFound) {nd nd' : Node} {b : Block}
           simp_all }
   cases hleg : cfg.legacy with
   | true =>
-    obtain ⟨hfix, hpu⟩ := hc.2 hleg
+    obtain ⟨hfix, hpu, _⟩ := hc.2 hleg
     exact legacy_revert_update hleg hfix hpu
       { toClassesOK := cls,
         sC := sinv.sC, sSt := sinv.sSt, sHS := sinv.sHS, sHN := sinv.sHN, sHC := sinv.sHC,
@@ -382,7 +379,7 @@ theorem storeOK_withRoots {cfg : Cfg} {nd : Node} {b : Block} (ok : StoreOK cfg 
   exact ⟨⟨⟨ok.block.fresh.hash, ok.block.fresh.txs, ok.block.fresh.msgs⟩, ok.block.casmFresh, ok.block.migVer,
       ok.block.dDep, ok.block.dRep, ok.block.dNon, ok.block.dSto, ok.block.dDecl, ok.block.dMig, ok.block.dDefs,
       ok.block.depNotSys, ok.block.known0, ok.block.decl1, ok.block.defsListed⟩,
-    ⟨ok.safe.noEmptySys, ok.safe.noSysEmptied, ok.safe.noDupDeclared, ok.safe.window⟩⟩
+    ⟨ok.safe.noEmptySys, ok.safe.noSysEmptied, ok.safe.window⟩⟩
 
 theorem sys_cases {a : Nat} (h : isSys a = true) : a = 1 ∨ a = 2 := by
   simpa [isSys] using h
